@@ -316,7 +316,8 @@ static void x_root(void) { memset(&M10, 0, sizeof M10); }
 static int fl_path[2];
 static void fl_name(int ev, char *b, size_t cap) { snprintf(b, cap, "arg(%d)", ev); }
 static int fl_stage[2], fl_ns;
-static void flood_case(int mtuB, int n) {
+static void flood_case(int mtuB, int code) {
+    int n = code % 1000, again = code / 1000;      /* again: after B's first QueryResp A emits its last (1) / first (2) frame once more: it must be reported by a LATER QueryResp */
     vf_world_reset();
     W.iface[0].mtu = 1500; W.iface[1].mtu = (size_t)mtuB;
     uint8_t f[1600]; size_t len;
@@ -343,12 +344,14 @@ static void flood_case(int mtuB, int n) {
             int k = (dsc[12] << 8) | dsc[13]; if (k < 700) seen[k] = 1;
         }
         total += cnt;
+        if (rounds == 1 && again && nfl) { int k = again == 1 ? nfl - 1 : 0; vf_trace_clear(); deliver_to(1, flight[k], 32); seen[k] = 0; more = 1; }
     }
     int missing = 0, first = -1; for (int k = 0; k < nfl; k++) if (!seen[k]) { missing++; if (first < 0) first = k; }
     vf_outcome(vf_hash64(&total, sizeof total, (uint64_t)mtuB));
+    if (A.verbose && again) printf("    after B's first QueryResp A emitted its %s frame once more (delivered)\n", again == 1 ? "last" : "first");
     if (A.verbose) printf("    B's MTU %d, %d frames emitted by A and delivered, %u descriptors reported in %d QueryResp frames, %d missing\n", mtuB, nfl, total, rounds, missing);
     if (nfl != n) vf_violation("peer:emitter-count", "A was ordered to emit %d frames towards B and put %d on the wire", n, nfl);
-    if (missing) vf_violation("peer-does-not-report-emitted-probe:many-in-flight", "B's MTU %d: A emitted %d frames towards B, all were delivered, B was queried until 'more' cleared: %d of them (first: #%d) never appear in a QueryResp with A as real source", mtuB, nfl, missing, first);
+    if (missing) vf_violation("peer-does-not-report-emitted-probe:many-in-flight", "B's MTU %d: A emitted %d frames towards B%s, all were delivered, B was queried until 'more' cleared: %d of them (first: #%d) never appear in a QueryResp with A as real source%s", mtuB, nfl, again ? " and one of them again after B's first QueryResp" : "", missing, first, again ? " (after the repeat)" : "");
 }
 static void fl_apply(int ev) { fl_stage[fl_ns++] = ev; if (fl_ns == 2) { fl_ns = 0; flood_case(fl_stage[0], fl_stage[1]); } }
 static void fl_root(void) { fl_ns = 0; }
@@ -367,7 +370,7 @@ int main(int argc, char **argv) {
         for (int mi = 0; mi < 22; mi++) {
             int mtuB = mi < 20 ? 576 + mi : extra[mi - 20]; int cap = (mtuB - 34) / 20;
             int ns[5] = {cap - 1, cap, cap + 1, cap + 2, 2 * cap + 1};
-            for (int k = 0; k < 5; k++) { fl_path[0] = mtuB; fl_path[1] = ns[k]; e1_manual_path(&flcfg, fl_path, 2); flood_case(mtuB, ns[k]); cases++; }
+            for (int k = 0; k < 5; k++) for (int again = 0; again < 3; again++) { fl_path[0] = mtuB; fl_path[1] = ns[k] + 1000 * again; e1_manual_path(&flcfg, fl_path, 2); flood_case(mtuB, fl_path[1]); cases++; }
         }
         R.evaluations = cases; R.states = cases; R.transitions = cases; R.exhaustive = 1; R.wall_s = vf_now_s() - t0f;
         vf_sample("B's MTU 592, A ordered to emit 28 frames (capacity 27 + 1) towards B, all delivered, B queried until 'more' clears: all 28 must be reported with A as source");
